@@ -91,6 +91,7 @@ const std::vector<TextInit> kTexts = {
   /*4*/ { { 1, "a" }, { 2, "b" }, { 3, "c" } },
   /*5*/ { { 1, "x" }, { 2, "\xD1\x8F" } },         // same keys as #2, other names (non-ASCII)
   /*6*/ { { 2, "b" }, { 3, "c" } },
+  /*7*/ { { 1, "a" }, { 3, "b" } },                 // same NAMES in key order as #2, different keys
 };
 TextInterpretation text_of(int i) {
   TextInterpretation t;
@@ -535,7 +536,7 @@ struct ModelSys {
       const auto t = m.GetRS(ord[static_cast<size_t>(i)]).type;
       if (ccl::semantic::IsBaseSet(t)) {
         add(ADD_ELEM, i);
-        for (int tau : (core ? std::vector<int>{ 3, 1, 0 } : js ? std::vector<int>{ 3, 0, 4 } : std::vector<int>{ 0, 1, 2, 3, 4, 5, 6 })) add(SET_TEXT, i, tau);
+        for (int tau : (core ? std::vector<int>{ 3, 1, 0, 7 } : js ? std::vector<int>{ 3, 0, 4 } : std::vector<int>{ 0, 1, 2, 3, 4, 5, 6, 7 })) add(SET_TEXT, i, tau);
         add(RESET_DATA, i);
       } else if (t == CstType::structured) {
         for (int v : (core ? std::vector<int>{ 0, 2, 3 } : js ? std::vector<int>{ 0, 6, 7, 9, 10, 13 } : std::vector<int>{ 0, 1, 2, 3, 4, 7, 8, 11, 12 })) add(SET_STRUCT, i, v);
@@ -878,11 +879,11 @@ int main(int argc, char** argv) {
     res.extra["x_transitions_changing_state"] = std::to_string(res.rep.counters["transitions_changing_state"]);
   }
   if (opt.mode == "stale") {
-    res.alphabet = "constituents addressed by list position. full: AddBasicElement(base,\"c\"); SetBasicText(base, t) t in {empty, {1}, {1,2} (same), {1,3} (same size, other keys), {1,2,3}, {1,2} renamed, {2,3}}; "
+    res.alphabet = "constituents addressed by list position. full: AddBasicElement(base,\"c\"); SetBasicText(base, t) t in {empty, {1}, {1,2} (same), {1,3} (same size, other keys), {1,2,3}, {1,2} renamed, {2,3}, {1:a,3:b} (same names, other keys)}; "
                    "SetStructureData(struct, v) v in {{} {1} {2} {1,2} {1,3} {{},{1}} {{1,2}} 1 3}; ResetDataFor(base|struct); SetExpressionFor(term, {X1, X1\\S1, D1uD1, B(S1), X1\\X2 (dangling), syntax error, D2uX1}) "
                    "(axiom, {D2=X1, D1=D1, 1=2, syntax error}) (struct, {B(X1), BB(X1), X1, syntax error}) (base, {1}); Erase(every position); Emplace(base | term X1 | term X1\\S1 | struct B(X1)); "
                    "InsertCopy(record D1:=S1uS1 | record X2); Calculate(every calculable); RecalculateAll; SetAliasFor(pos, <letter>7, substitute); documented refusals (wrong kind / missing uid). "
-                   "core (deeper phase): AddBasicElement; SetBasicText {1,3} {1} empty; SetStructureData {} {2} {1,2}; ResetDataFor; SetExpressionFor term {X1, D1uD1, X1\\X2} axiom {D1=D1} struct {BB(X1)}; Erase; Emplace(base | term X1); Calculate; RecalculateAll. "
+                   "core (deeper phase): AddBasicElement; SetBasicText {1,3} {1} empty {1:a,3:b}; SetStructureData {} {2} {1,2}; ResetDataFor; SetExpressionFor term {X1, D1uD1, X1\\X2} axiom {D1=D1} struct {BB(X1)}; Erase; Emplace(base | term X1); Calculate; RecalculateAll. "
                    "seeds: M0 = X1{1,2} S1::=B(X1){1} D1:=X1\\S1 D2:=D1uD1 D3:=B(S1) A1:=D2=X1 fully calculated; M1 = same, nothing calculated; M2 = X1, D1:=D2uD3, D2:=D4, D3:=D4\\D4, D4:=X1 (listed against dependency order) calculated; each with uid policy ascending / descending";
     res.rule = "state = exact canonical dump (core incl. parse results, registries, three graphs; stored data, text interpretations, statements, calculatedEntities) of a history replayed on a fresh RSModel; "
                "evaluations = states on which the differential oracle ran (fresh model rebuilt from content + RecalculateAll); checks = calculated constituents compared + prune / refusal transition checks; "
